@@ -234,7 +234,9 @@ pub fn check(prop: P, case: &Case, cfg: &RunCfg, order: (usize, u64, u32), acc: 
             if let Err((sig, what)) = check_watches(d) {
                 acc.violation(v(sig, what, res.outcome.short()));
             }
-            if matches!(res.outcome, Outcome::Ok(_)) {
+            // (not with soft requirements: a directly named soft solvable is exempt from its package's lock
+            // and exclusion list, so the Lock / Excluded clause added later for it is legitimately false)
+            if matches!(res.outcome, Outcome::Ok(_)) && case.p.soft.is_empty() {
                 if let Err((sig, what)) = check_fixpoint(d) {
                     acc.violation(v(sig, what, res.outcome.short()));
                 }
